@@ -183,6 +183,7 @@ type gpkg struct {
 	typeArgs         string            // explicit type arguments at calls of generated defs
 	fixedParams      string            // parameters every def takes first
 	fixedArgs        string
+	frIsCoord        bool // fr.Element is the coordinate field of the points (eddsa)
 	hashNil          bool // this translation run: hash.Hash parameters are nil
 	nameSuffix       string
 	header           []string // extra defs at the head of the file (constants)
@@ -367,7 +368,7 @@ func (p *gpkg) typeOf(e ast.Expr) *gtype {
 		switch {
 		case p.isCurveImport(x.Name) && (e.Sel.Name == "G1Affine" || e.Sel.Name == "G1Jac"):
 			return &gtype{k: gG, name: e.Sel.Name}
-		case x.Name == "twistededwards" && e.Sel.Name == "PointAffine":
+		case (x.Name == "twistededwards" || x.Name == "bandersnatch") && e.Sel.Name == "PointAffine":
 			return &gtype{k: gG, name: "PointAffine"}
 		case x.Name == "fp" && e.Sel.Name == "Element":
 			return &gtype{k: gFp}
@@ -375,6 +376,8 @@ func (p *gpkg) typeOf(e ast.Expr) *gtype {
 			return &gtype{k: gG2}
 		case p.isCurveImport(x.Name) && e.Sel.Name == "LineEvaluationAff":
 			return &gtype{k: gLineElt}
+		case x.Name == "fr" && e.Sel.Name == "Element" && p.frIsCoord:
+			return &gtype{k: gFp} // eddsa packages: fr is the field the twisted Edwards curve is defined over
 		case x.Name == "fr" && e.Sel.Name == "Element":
 			return &gtype{k: gS}
 		case x.Name == "big" && e.Sel.Name == "Int":
@@ -1462,6 +1465,9 @@ func (x *gtr) call(s *gscope, c *ast.CallExpr) []*gv {
 		}
 		rv := x.store[recv]
 		if rv.t.k == gStruct {
+			if rs, ok := x.uninterpMethod(s, recv, rv.t.name+"."+f.Sel.Name, c); ok {
+				return rs
+			}
 			if fd, ok := x.p.funcs[rv.t.name+"."+f.Sel.Name]; ok {
 				return x.callFn(s, fd, rv.t.name+"."+f.Sel.Name, &recv, c)
 			}
@@ -1837,8 +1843,16 @@ func (x *gtr) forStmt(s *gscope, st *ast.ForStmt, rest func() string) string {
 }
 
 func (x *gtr) rangeStmt(s *gscope, st *ast.RangeStmt, rest func() string) string {
-	if st.Value != nil || st.Tok != token.DEFINE {
-		reject("%s: range with a value variable", x.fname)
+	if st.Tok != token.DEFINE {
+		reject("%s: range without :=", x.fname)
+	}
+	valName := ""
+	if st.Value != nil {
+		id, ok := st.Value.(*ast.Ident)
+		if !ok {
+			reject("%s: range value", x.fname)
+		}
+		valName = id.Name
 	}
 	key, ok := st.Key.(*ast.Ident)
 	if !ok {
@@ -1857,6 +1871,13 @@ func (x *gtr) rangeStmt(s *gscope, st *ast.RangeStmt, rest func() string) string
 		body := &gscope{vars: map[string]cellID{}, parent: s}
 		if key.Name != "_" {
 			body.vars[key.Name] = x.newCell(key.Name, mkInt(i))
+		}
+		if valName != "" && valName != "_" {
+			ev := x.store[v.elems[i]]
+			if !ev.t.leaf() {
+				reject("%s: range value of a composite type", x.fname)
+			}
+			body.vars[valName] = x.newCell(valName, ev) // a copy of the element
 		}
 		return x.exec(body, st.Body.List, func() string { return loop(i + 1) })
 	}
@@ -2190,6 +2211,11 @@ func newSigPkg(label, dir, files string) *gpkg {
 	return p
 }
 
+var eddsaDirs = [][2]string{{"bn254", "ecc/bn254/twistededwards/eddsa"}, {"bls12_377", "ecc/bls12-377/twistededwards/eddsa"},
+	{"bls12_381", "ecc/bls12-381/twistededwards/eddsa"}, {"bandersnatch", "ecc/bls12-381/bandersnatch/eddsa"},
+	{"bls24_315", "ecc/bls24-315/twistededwards/eddsa"}, {"bls24_317", "ecc/bls24-317/twistededwards/eddsa"},
+	{"bw6_633", "ecc/bw6-633/twistededwards/eddsa"}, {"bw6_761", "ecc/bw6-761/twistededwards/eddsa"}}
+
 var groupCurves = []string{"bn254", "bls12-377", "bls12-381", "bls24-315", "bls24-317", "bw6-633", "bw6-761"}
 
 func runGroup() {
@@ -2252,6 +2278,18 @@ func runGroup() {
 			p.hashNil, p.nameSuffix = true, "_nohash"
 			p.translate("PublicKey.Verify", nil)
 			p.emit("ecdsa_"+lc, "Ecdsa_"+lc+".lean", "")
+		})
+	}
+	for _, d := range eddsaDirs {
+		guard("eddsa "+d[0], func() {
+			p := newSigPkg("eddsa_"+d[0], d[1], "eddsa.go")
+			p.frIsCoord = true
+			p.uninterp["Signature.SetBytes"] = "parse"
+			p.nameSuffix = "_hash"
+			p.translate("PublicKey.Verify", nil)
+			p.hashNil, p.nameSuffix = true, "_nohash"
+			p.translate("PublicKey.Verify", nil)
+			p.emit("eddsa_"+d[0], "Eddsa_"+d[0]+".lean", "")
 		})
 	}
 	if len(failures) > 0 {
